@@ -10,7 +10,9 @@ from klongpy.core import KGSym, KGFn, KGLambda, KGFnWrapper, KlongException
 from vt.props.ipcstub import Fut, step, Prov, Loop, patch, unpatch
 
 PROPERTY = "C13"
-FUNCTIONS = ["klongpy.sys_fn_ipc.run_command_on_klongloop", "klongpy.sys_fn_ipc.encode_message", "klongpy.sys_fn_ipc.decode_message_len", "klongpy.sys_fn_ipc.decode_message",
+FUNCTIONS = ["klongpy.sys_fn_ipc.NetworkClient.__call__", "klongpy.sys_fn_ipc.KGRemoteFnProxy.__call__",
+             "klongpy.sys_fn_ipc.NetworkClientDictHandle.get", "klongpy.sys_fn_ipc.NetworkClientDictHandle.set",
+             "klongpy.sys_fn_ipc.run_command_on_klongloop", "klongpy.sys_fn_ipc.encode_message", "klongpy.sys_fn_ipc.decode_message_len", "klongpy.sys_fn_ipc.decode_message",
              "klongpy.sys_fn_ipc.stream_send_msg", "klongpy.sys_fn_ipc.stream_recv_msg", "klongpy.sys_fn_ipc.execute_server_command"]
 ASSUMPTIONS = [
     "pickle.dumps/loads = an opaque injective codec (identity on bytes): that a VALUE survives pickle (C code) is not examined",
@@ -476,6 +478,8 @@ class FakeKlong:
             raise KeyError("price")              # a Python function called by the expression failed a dict lookup
         if s == "fn":
             return KGFn("a", None, 2)
+        if KGSym(s) in self.t:
+            return self.t[KGSym(s)]
         return ('evaluated', s)
 
 
@@ -563,6 +567,97 @@ def dispatch(kind: int, a: int, b: int) -> bool:
     if kind == 4:
         return verdict(fut.val is None and table[sym] == a)
     return verdict(fut.val == expect)
+
+
+class _LamFn(KGLambda):
+    """a server-side dyadic function (as an imported Python function would be): x - 2*y"""
+    def __init__(self, log):
+        self.log = log
+
+    def __call__(self, klong, ctx):
+        from klongpy.core import reserved_fn_symbols
+        x = ctx[reserved_fn_symbols[0]]; y = ctx[reserved_fn_symbols[1]]
+        self.log.append(('fn', x, y)); return x - 2 * y
+
+    def get_arity(self):
+        return 2
+
+
+class _StubClient(IPC.NetworkClient):
+    """the real client-side handle code (NetworkClient.__call__, KGRemoteFnProxy, NetworkClientDictHandle) over a transport that
+    hands every message straight to the real server-side execute_server_command"""
+    def __init__(self, server):
+        self.server = server; self.sent = []
+
+    def is_open(self):
+        return True
+
+    def call(self, msg):
+        self.sent.append(msg)
+        fut = Fut()
+        k, v = step(IPC.execute_server_command(Loop(), fut, self.server, msg, self))
+        if k != 'ret':
+            raise RuntimeError("server coroutine did not finish")
+        return fut.result()
+
+
+def remote_forms(kind: int, a: int, b: int) -> bool:
+    """
+    pre: 0 <= kind <= 7
+    post: _
+    """
+    # every remote operation form of the client returns / stores what the same operation yields locally on the server:
+    # f("expr"), f(:name,args), a function proxy q(args) obtained from f(:name) or from the remote dictionary, remote dict get/set
+    enter()
+    from klongpy.core import reserved_fn_symbols, KLONG_UNDEFINED
+    X, Y = reserved_fn_symbols[0], reserved_fn_symbols[1]
+    log = []
+    name = KGSym('name'); val = KGSym('val'); undef = KGSym('undef')
+    table = {name: _LamFn(log), val: b, undef: KLONG_UNDEFINED}
+    server = FakeKlong(table, log)
+    nc = _StubClient(server)
+    d = IPC.NetworkClientDictHandle(nc)
+    patch()
+    import traceback as _tbm
+    saved_pe = _tbm.print_exception
+    _tbm.print_exception = lambda *a_, **k_: None
+    try:
+        if kind == 0:                       # f("expr")
+            r = nc(None, {X: "1+1"})
+            return verdict(r == ('evaluated', "1+1") and nc.sent == ["1+1"])
+        if kind == 1:                       # f(:name,a,b)
+            r = nc(None, {X: [name, a, b]})
+            m = nc.sent[0]
+            return verdict(r == a - 2 * b and isinstance(m, IPC.KGRemoteFnCall) and m.sym == name and list(m.params) == [a, b]
+                           and log[-1] == ('fn', a, b))
+        if kind == 2:                       # q::f(:name); q(a;b)
+            q = nc(None, {X: name})
+            if not isinstance(q, IPC.KGRemoteFnProxy) or q.get_arity() != 2:
+                return verdict(False)
+            r = q(None, {X: a, Y: b})
+            return verdict(r == a - 2 * b and log[-1] == ('fn', a, b))
+        if kind == 3:                       # d?:val
+            return verdict(d.get(val) == b and d[val] == b)
+        if kind == 4:                       # d,:val,a then d?:val ; other bindings unaffected
+            d.set(val, a)
+            return verdict(table[val] == a and d.get(val) == a and table[undef] is KLONG_UNDEFINED)
+        if kind == 5:                       # q::d?:name; q(a;b)
+            q = d.get(name)
+            if not isinstance(q, IPC.KGRemoteFnProxy):
+                return verdict(False)
+            return verdict(q(None, {X: a, Y: b}) == a - 2 * b)
+        if kind == 6:                       # :undefined arrives as :undefined
+            return verdict(d.get(undef) is KLONG_UNDEFINED and nc(None, {X: "undef"}) is KLONG_UNDEFINED)
+        # a server-side failure reaches the caller as an error, and the next call works
+        try:
+            d.get(KGSym('absent'))
+            return verdict(False)
+        except KlongException:
+            pass
+        return verdict(d.get(val) == b)
+    finally:
+        _tbm.print_exception = saved_pe
+        unpatch()
 
 
 class _KLoop:
@@ -662,7 +757,9 @@ def obligations(tier):
            {"name": "framing over abstract lengths: 2 frames, any body length < 2^32, any cut, any partial-read sizes", "fn": "frames_abstract",
             "cfg": {"frames": 2}, "timeout": 300 if q else 900},
            {"name": "server command dispatch", "fn": "dispatch", "cfg": {}, "timeout": 120},
-           {"name": "commands run on the interpreter's loop, never on the IO thread", "fn": "on_klongloop", "cfg": {}, "timeout": 120}]
+           {"name": "commands run on the interpreter's loop, never on the IO thread", "fn": "on_klongloop", "cfg": {}, "timeout": 120},
+           {"name": "remote operation forms (text, symbol+args, proxy, dictionary get/set) equal the local operation", "fn": "remote_forms",
+            "cfg": {}, "timeout": 120}]
     if not q:
         obs.append({"name": "framing over abstract lengths: 3 frames", "fn": "frames_abstract", "cfg": {"frames": 3}, "timeout": 1800})
         obs.append({"name": "framing 3 frames payload<=3", "fn": "frames", "cfg": {"frames": 3, "maxlen": 3}, "timeout": 1800})
